@@ -46,6 +46,8 @@ def run_one(prop, mdir, tier, checks_extra=()):
         if r.returncode:
             r = sh(["git", "-C", wt, "apply", "--3way", patch])
             if r.returncode:
+                # a 3-way attempt that ends in conflicts leaves markers in the files: start from the clean tree again
+                sh(["git", "-C", wt, "reset", "-q", "--hard", "HEAD"])
                 r = sh("cd %s && patch -p1 --fuzz=3 < %s" % (wt, patch))
                 if r.returncode:
                     res["error"] = "patch does not apply to the current tree"
@@ -53,6 +55,10 @@ def run_one(prop, mdir, tier, checks_extra=()):
             res["applied"] = "3way/fuzz"
         else:
             res["applied"] = "clean"
+        imp = subprocess.run(["/venv/bin/python", "-W", "ignore", "-c", "import bionumpy, bionumpy.io, bionumpy.genomic_data"], env=dict(os.environ, PYTHONPATH=wt, PYTHONDONTWRITEBYTECODE="1"), capture_output=True, text=True, cwd="/tmp")
+        if imp.returncode:
+            res["error"] = "the patched tree does not import (patch needs rebasing): " + imp.stderr[-200:]
+            return res
         env = dict(os.environ, PYTHONDONTWRITEBYTECODE="1")
         demo = os.path.join(mdir, "demo.py")
         t0 = time.time()
